@@ -12,6 +12,17 @@ wrapper) and use bare literals.  For every module the translator records
 `Chrono.Props.C20.literals_ok` states what these lists are for the code the model was written against; a
 changed unit, divisor, bound, accessor or inner visitor makes that theorem fail on the re-extracted data.
 Output: lean/Chrono/Extracted/SerdeLits.lean.
+
+Second output (audit2 gap 2), lean/Chrono/Extracted/SerdeBodies.lean: the COMPLETE shape of every body as a term
+of the types of lean/Chrono/Model/SerdeTsCode.lean.  `visit_i64` / `visit_u64` are parsed with a small
+recursive-descent parser of Rust integer expressions (method call > `as` > `* / %` > comparison), so the operator
+between two literals (`/` vs `%`), every cast, `div_euclid` vs `rem_euclid`, `>` vs `>=`, the constructor and the
+presence of `.map(|dt| dt.naive_utc())` are all recorded; `serialize`, `deserialize`, `visit_some`, `visit_none`,
+`visit_unit` are matched as a whole against the one shape they have (which `serialize_*` / `deserialize_*` method is
+requested, which accessor, `.and_utc()`, `.ok_or(..)?`, which visitor, which `.map(..)` follows).  A body that
+is not of these shapes makes the extraction of that item fail (reported stale, the check fails).
+`Chrono.Props.C20.ts_bodies_ok` proves that the extracted terms, given their meaning by
+lean/Chrono/Model/SerdeTsEval.lean, are the functions of the model.
 """
 import os
 import re
@@ -73,6 +84,242 @@ def inner(body):
     return [VIS[m.group(1)]]
 
 
+# ---------------------------------------------------------------- full bodies (SerdeBodies.lean)
+
+TOK = re.compile(r"\s*(?:(\d[\d_]*)(u8|u16|u32|u64|i8|i16|i32|i64|usize)?|([A-Za-z_]\w*)|(::|>=|<=|==|!=|\|\||[-+*/%<>(){}.,|&?!=;]))")
+
+
+def tokens(text):
+    out, i = [], 0
+    text = text.strip()
+    while i < len(text):
+        m = TOK.match(text, i)
+        if not m or m.end() == i:
+            raise LookupError("cannot tokenize at " + text[i:i + 20])
+        if m.group(1) is not None:
+            out.append(("int", int(m.group(1).replace("_", ""))))
+        elif m.group(3) is not None:
+            out.append(("id", m.group(3)))
+        else:
+            out.append(("p", m.group(4)))
+        i = m.end()
+    return out
+
+
+class P:
+    """parser of a visit_i64 / visit_u64 body; produces a Lean term of type `Code.Visit`"""
+
+    def __init__(self, toks):
+        self.t, self.i = toks, 0
+
+    def peek(self, k=0):
+        return self.t[self.i + k] if self.i + k < len(self.t) else ("eof", None)
+
+    def eat(self, kind, val=None):
+        tk = self.peek()
+        if tk[0] != kind or (val is not None and tk[1] != val):
+            raise LookupError(f"expected {val or kind}, found {tk[1]!r} at token {self.i}")
+        self.i += 1
+        return tk[1]
+
+    def eat_seq(self, text):
+        for kind, val in tokens(text):
+            self.eat(kind, val)
+
+    def at(self, kind, val):
+        return self.peek() == (kind, val)
+
+    def primary(self):
+        tk = self.peek()
+        if tk == ("id", "value"):
+            self.i += 1
+            return ".value"
+        if tk[0] == "int":
+            self.i += 1
+            return f"(.lit {tk[1]})"
+        if tk == ("id", "i64"):
+            self.eat_seq("i64::MAX")
+            return ".i64Max"
+        if tk == ("p", "("):
+            self.i += 1
+            e = self.mul()
+            self.eat("p", ")")
+            return e
+        raise LookupError(f"unexpected token {tk[1]!r} in expression")
+
+    def postfix(self):
+        e = self.primary()
+        while self.at("p", "."):
+            name = self.peek(1)
+            if name not in (("id", "div_euclid"), ("id", "rem_euclid")):
+                raise LookupError(f"unknown method {name[1]!r} in expression")
+            self.i += 2
+            self.eat("p", "(")
+            a = self.mul()
+            self.eat("p", ")")
+            e = f"(.{'divEuclid' if name[1] == 'div_euclid' else 'remEuclid'} {e} {a})"
+        return e
+
+    def cast(self):
+        e = self.postfix()
+        while self.at("id", "as"):
+            self.i += 1
+            ty = self.eat("id")
+            if ty not in ("i64", "u64", "u32"):
+                raise LookupError("cast to " + ty)
+            e = f"(.cast {e} .{ty})"
+        return e
+
+    def mul(self):
+        e = self.cast()
+        while self.peek() in (("p", "*"), ("p", "/"), ("p", "%")):
+            op = {"*": "mul", "/": "div", "%": "rem"}[self.peek()[1]]
+            self.i += 1
+            e = f"(.{op} {e} {self.cast()})"
+        return e
+
+    def build(self):
+        self.eat_seq("DateTime::")
+        c = self.eat("id")
+        if c not in CTOR:
+            raise LookupError("constructor " + c)
+        self.eat("p", "(")
+        args = [self.mul()]
+        while self.at("p", ","):
+            self.i += 1
+            if self.at("p", ")"):
+                break
+            args.append(self.mul())
+        self.eat("p", ")")
+        mp = "false"
+        if self.peek(1) == ("id", "map"):
+            self.eat_seq(".map(|dt| dt.naive_utc())")
+            mp = "true"
+        self.eat_seq(".ok_or_else(|| invalid_ts(value))")
+        return f"(.build .{c} [{', '.join(args)}] {mp})"
+
+    def stmt(self):
+        if self.at("id", "if"):
+            self.i += 1
+            a = self.mul()
+            op = self.eat("p")
+            if op not in (">", ">=", "<", "<="):
+                raise LookupError("comparison " + op)
+            b = self.mul()
+            self.eat_seq("{ Err(invalid_ts(value)) } else {")
+            els = self.stmt()
+            self.eat("p", "}")
+            return f"(.refuseIf .{ {'>': 'gt', '>=': 'ge', '<': 'lt', '<=': 'le'}[op] } {a} {b} {els})"
+        return self.build()
+
+    def body(self):
+        self.eat("p", "{")
+        v = self.stmt()
+        self.eat("p", "}")
+        if self.peek()[0] != "eof":
+            raise LookupError("trailing tokens")
+        return v
+
+
+def visit_term(body):
+    return P(tokens(body)).body()
+
+
+def squeeze(body):
+    return re.sub(r"\s+", "", body)
+
+
+OKOR = r'(\.ok_or\(ser::Error::custom\("[^"]*",?\),?\)\?)?'
+CALL = r"serializer\.(\w+)\(&?dt(\.and_utc\(\))?\.(timestamp\w*)\(\)" + OKOR + r",?\)"
+
+
+def ser_call(m):
+    if m.group(3) not in ACC:
+        raise LookupError("accessor " + m.group(3))
+    b = lambda x: "true" if x else "false"
+    return f"{{ m := .{m.group(1)}, andUtc := {b(m.group(2))}, acc := .{m.group(3)}, okOrTry := {b(m.group(4))} }}"
+
+
+def ser_term(body):
+    s = squeeze(body)
+    m = re.fullmatch(r"\{" + CALL + r"\}", s)
+    if m:
+        return f".plain {ser_call(m)}"
+    m = re.fullmatch(r"\{match\*opt\{Some\(refdt\)=>" + CALL + r",None=>serializer\.(\w+)\(\),?\}\}", s)
+    if m:
+        return f".matchOpt {ser_call(m)} .{m.group(5)}"
+    raise LookupError("serialize body of unknown shape")
+
+
+POSTS = {"": "none", ".map(Some)": "mapSome", ".map(|dt|dt.with_timezone(&Utc))": "mapWithTzUtc",
+         ".map(|opt|opt.map(|dt|dt.with_timezone(&Utc)))": "mapOptMapWithTzUtc"}
+
+
+def de_term(body):
+    m = re.fullmatch(r"\{d\.(deserialize_\w+)\((\w+)\)(.*)\}", squeeze(body))
+    if not m or m.group(3) not in POSTS:
+        raise LookupError("deserialize body of unknown shape")
+    return f"{{ m := .{m.group(1)}, visitor := .{m.group(2)}, post := .{POSTS[m.group(3)]} }}"
+
+
+def unitish_term(body):
+    if squeeze(body) != "{Ok(None)}":
+        raise LookupError("visit_none / visit_unit body of unknown shape")
+    return ".okNone"
+
+
+def impl_for(mod):
+    """the struct whose `de::Visitor` impl sits in this module"""
+    m = one(r"impl(?:<'de>)?\s+de::Visitor<'(?:_|de)>\s+for\s+(\w+)", mod, "Visitor impl")
+    return "." + m.group(1)
+
+
+def previous_bodies():
+    p = os.path.join(os.path.dirname(os.path.dirname(os.path.dirname(os.path.abspath(__file__)))),
+                     "lean", "Chrono", "Extracted", "SerdeBodies.lean")
+    prev = {}
+    try:
+        for m in re.finditer(r"^def (SB_\w+) : Code\.\w+ := (.*)$", open(p).read(), re.M):
+            prev[m.group(1)] = m.group(2)
+    except OSError:
+        pass
+    return prev
+
+
+def run_bodies(api):
+    prev = previous_bodies()
+    text = api.hdr + "import Chrono.Model.SerdeTsCode\n\nnamespace Chrono.Extracted\nopen Chrono.M.Serde\n\n"
+    for tg, rel in FILES.items():
+        src = api.strip_comments(api.read(rel))
+        cut = src.find("#[cfg(test)]")
+        if cut >= 0:
+            src = src[:cut]
+        for unit in UNITS:
+            for opt in ["", "_option"]:
+                modname = f"ts_{unit}{opt}"
+                items = [("ser", "serialize", "Ser", ser_term), ("de", "deserialize", "De", de_term)]
+                if opt:
+                    items += [("some", "visit_some", "De", de_term), ("none", "visit_none", "Unitish", unitish_term),
+                              ("unit", "visit_unit", "Unitish", unitish_term)]
+                else:
+                    items += [("i64", "visit_i64", "Visit", visit_term), ("u64", "visit_u64", "Visit", visit_term)]
+                items += [("impl", None, "Vis", None)]
+                for tag, fname, ty, fn in items:
+                    key = f"SB_{tg}_{modname}_{tag}"
+                    def get(modname=modname, fname=fname, fn=fn):
+                        m = one(r"pub mod " + modname + r"\s*\{", src, modname)
+                        mod = block_after(src, m.start())
+                        if fname is None:
+                            return impl_for(mod)
+                        return fn(fn_block(mod, fname))
+                    val = api.section(key, rel, get, prev.get(key))
+                    if val is None:
+                        continue
+                    text += f"def {key} : Code.{ty} := {val}\n"
+    text += "\nend Chrono.Extracted\n"
+    api.emit("SerdeBodies.lean", text)
+
+
 def previous():
     p = os.path.join(os.path.dirname(os.path.dirname(os.path.dirname(os.path.abspath(__file__)))),
                      "lean", "Chrono", "Extracted", "SerdeLits.lean")
@@ -111,3 +358,4 @@ def run(api):
                     text += f"def {key} : List Int := [{', '.join(str(v) for v in val)}]\n"
     text += "\nend Chrono.Extracted\n"
     api.emit("SerdeLits.lean", text)
+    run_bodies(api)
